@@ -36,6 +36,7 @@ type burst struct {
 // by Seed, so a scenario is reproducible from its parameters.
 type scenario struct {
 	Class string `json:"class"`
+	Calls int    `json:"calls,omitempty"` // index into callSets
 	Seed  int64  `json:"seed"`
 	Link  string `json:"link"` // pipe | tcp
 	Seg   string `json:"seg"`  // pipe: hostile | bytes | whole ; tcp: percentage of frames cut, e.g. "cut20"
@@ -93,12 +94,21 @@ func defaults() scenario {
 		ShortX: -1, ShortG: -1, ShortR: -1, ShortYAt: -1}
 }
 
-const (
-	myCall     = "LA5NTA-1"
-	remoteCall = "N0CALL-1"
-	otherCall  = "SM0XYZ-2"
-	thirdCall  = "OH2ABC-5"
-)
+// callSet: the callsigns of one scenario: this application's, the remote station's, a second remote station's
+// (noise, or the second connection of Dual scenarios) and a third one's (noise only).
+type callSet struct{ myCall, remoteCall, otherCall, thirdCall string }
+
+// Callsigns are up to six characters plus an optional SSID 0..15; the SSIDs 10..15, callsigns that end in
+// digits and callsigns without an SSID are as legal as the textbook "-1".
+var callSets = []callSet{
+	{"LA5NTA-1", "N0CALL-1", "SM0XYZ-2", "OH2ABC-5"},
+	{"LA1B-10", "N0CALL-10", "SM0XYZ-15", "OH2ABC-10"},
+	{"LA5NTA", "N0CALL", "SM0XYZ", "OH2ABC"},
+	{"LN100-10", "OZ50-10", "SM0XYZ-12", "OH2ABC-11"},
+	{"LA5NTA-15", "N0CALL-7", "N0CALL-1", "N0CALL-10"},
+}
+
+func (sc scenario) callSet() callSet { return callSets[sc.Calls%len(callSets)] }
 
 var digiCalls = []string{"WIDE1-1", "LD5SK"}
 
@@ -110,6 +120,7 @@ func (sc scenario) tolerant() bool {
 // env is the running state of one scenario.
 type env struct {
 	sc  scenario
+	cs  callSet
 	omu sync.Mutex // guards o: library calls run on several goroutines
 	o   *vrt.Obs
 	rng *rand.Rand
@@ -320,7 +331,7 @@ func (e *env) isAborted() bool {
 // ---------------------------------------------------------------------------------------------
 
 func (sc scenario) simConfig() simagw.Config {
-	cfg := simagw.Config{Port: uint8(sc.Port), MyCall: myCall, MaxFrame: uint8(sc.MaxFrame), TTLMax: sc.TTLMax, Seed: sc.Seed,
+	cfg := simagw.Config{Port: uint8(sc.Port), MyCall: sc.callSet().myCall, MaxFrame: uint8(sc.MaxFrame), TTLMax: sc.TTLMax, Seed: sc.Seed,
 		ShortX: sc.ShortX, ShortG: sc.ShortG, ShortR: sc.ShortR, ShortYAt: sc.ShortYAt, ShortYLen: sc.ShortYLen, NoisePct: sc.NoisePct}
 	if sc.RegX {
 		cfg.RegisterReplyKind = 'x'
@@ -337,7 +348,7 @@ func (sc scenario) simConfig() simagw.Config {
 	}
 	port := uint8(sc.Port)
 	dual := sc.Dual
-	cfg.Noise = func(r *rand.Rand) []simagw.Frame { return []simagw.Frame{harmlessFrame(r, port, dual)} }
+	cfg.Noise = func(r *rand.Rand) []simagw.Frame { return []simagw.Frame{harmlessFrame(r, port, dual, sc.callSet())} }
 	if sc.Link == "tcp" {
 		pct := 0
 		fmt.Sscanf(sc.Seg, "cut%d", &pct)
@@ -375,9 +386,9 @@ func otherPort(r *rand.Rand, port uint8) uint8 {
 // that is at worst meaningless) and that must neither reach the connection's reader nor disturb
 // any exchange: data for other ports or other stations, monitor frames, unknown kinds, connect
 // notices that do not concern this station, stray replies addressed elsewhere.
-func harmlessFrame(r *rand.Rand, port uint8, dual bool) simagw.Frame {
+func harmlessFrame(r *rand.Rand, port uint8, dual bool, cs callSet) simagw.Frame {
 	junk := func(n int) []byte { return append([]byte("!FOREIGN!"), vrt.Bytes(r, n)...) }
-	otherCall := otherCall
+	myCall, remoteCall, otherCall, thirdCall := cs.myCall, cs.remoteCall, cs.otherCall, cs.thirdCall
 	if dual {
 		// otherCall is a live connection of this application then: frames in its name are not noise
 		otherCall = thirdCall
@@ -453,7 +464,7 @@ func (e *env) open() (ok bool) {
 		e.sim.Attach(tncEnd, tncEnd.CloseWrite)
 		if !e.call("RegisterPort", func() {
 			e.tnc = agwpe.VerifNewTNC(host)
-			e.port, regErr = e.tnc.RegisterPort(sc.Port, myCall)
+			e.port, regErr = e.tnc.RegisterPort(sc.Port, e.cs.myCall)
 		}) {
 			return false
 		}
@@ -474,7 +485,7 @@ func (e *env) open() (ok bool) {
 			e.sim.Attach(tc, tc.CloseWrite)
 		}()
 		if !e.call("OpenPortTCP", func() {
-			e.tncPort, regErr = agwpe.OpenPortTCP(ln.Addr().String(), sc.Port, myCall)
+			e.tncPort, regErr = agwpe.OpenPortTCP(ln.Addr().String(), sc.Port, e.cs.myCall)
 			if regErr == nil {
 				e.tnc, e.port = &e.tncPort.TNC, &e.tncPort.Port
 			}
@@ -498,11 +509,11 @@ func (e *env) open() (ok bool) {
 	}
 	if regErr != nil {
 		e.regFailed = true // RegisterPort closes the TNC itself in that case
-		e.apiErr("api:register:error", regErr, "RegisterPort(%d,%q) failed although the TNC confirmed the registration: %v", sc.Port, myCall, regErr)
+		e.apiErr("api:register:error", regErr, "RegisterPort(%d,%q) failed although the TNC confirmed the registration: %v", sc.Port, e.cs.myCall, regErr)
 		return false
 	}
-	if !e.sim.WaitState(time.Second, func(v *simagw.View) bool { return v.Registered(myCall) }) {
-		e.vio("exchange:register:no-X", "RegisterPort returned nil but the TNC never received an 'X' frame for %q", myCall)
+	if !e.sim.WaitState(time.Second, func(v *simagw.View) bool { return v.Registered(e.cs.myCall) }) {
+		e.vio("exchange:register:no-X", "RegisterPort returned nil but the TNC never received an 'X' frame for %q", e.cs.myCall)
 		return false
 	}
 	return true
@@ -541,7 +552,7 @@ func (e *env) connect() bool {
 		if sc.CancelCtx {
 			ctx, cancel = context.WithTimeout(ctx, time.Hour)
 		}
-		ok := e.call("DialContext", func() { c, err = e.port.DialContext(ctx, remoteCall, digis...) })
+		ok := e.call("DialContext", func() { c, err = e.port.DialContext(ctx, e.cs.remoteCall, digis...) })
 		cancel()
 		if !ok {
 			return false
@@ -561,18 +572,18 @@ func (e *env) connect() bool {
 			}
 			if sc.Dial == "badtext" {
 				// the library tells the TNC to drop the half-open link
-				if !e.sim.WaitState(2*time.Second, func(v *simagw.View) bool { c := v.Conn(remoteCall); return c != nil && c.LateFrames > 0 }) {
+				if !e.sim.WaitState(2*time.Second, func(v *simagw.View) bool { c := v.Conn(e.cs.remoteCall); return c != nil && c.LateFrames > 0 }) {
 					e.count("badtext_no_disconnect_sent", 1)
 				}
 			}
 			return false
 		}
 		if err != nil {
-			e.vio("api:dial:error", "DialContext(%q via %v) failed although the TNC reported the connection: %v", remoteCall, digis, err)
+			e.vio("api:dial:error", "DialContext(%q via %v) failed although the TNC reported the connection: %v", e.cs.remoteCall, digis, err)
 			return false
 		}
 		e.conn = c
-		want := remoteCall
+		want := e.cs.remoteCall
 		if len(digis) > 0 {
 			want += " via " + strings.Join(digis, " ")
 		}
@@ -581,10 +592,10 @@ func (e *env) connect() bool {
 		}
 		// the connect request the TNC saw
 		rep := e.sim.Report()
-		sc13 := rep.Conns[remoteCall]
+		sc13 := rep.Conns[e.cs.remoteCall]
 		switch {
 		case sc13 == nil:
-			e.vio("exchange:dial:no-connect-frame", "DialContext returned nil but the TNC has no connection from %q to %q on port %d", myCall, remoteCall, sc.Port)
+			e.vio("exchange:dial:no-connect-frame", "DialContext returned nil but the TNC has no connection from %q to %q on port %d", e.cs.myCall, e.cs.remoteCall, sc.Port)
 			return false
 		case len(digis) == 0 && sc13.ConnectKind != 'C':
 			e.vio("exchange:dial:kind", "connect without digipeaters was requested with a %q frame", sc13.ConnectKind)
@@ -617,11 +628,11 @@ func (e *env) connect() bool {
 	if sc.OddAccept {
 		// none of these is an incoming connection for this station
 		odd := []simagw.Frame{
-			{Kind: 'C', Port: uint8(sc.Port), From: remoteCall, To: myCall, Data: []byte("*** CONNECTED With Station " + remoteCall + "\r\x00")},
-			{Kind: 'C', Port: uint8(sc.Port), From: remoteCall, To: myCall, Data: nil},
-			{Kind: 'C', Port: uint8(sc.Port), From: remoteCall, To: myCall, Data: []byte("*** CONN")},
-			{Kind: 'C', Port: uint8(sc.Port), From: otherCall, To: "LA5NTA-9", Data: []byte("*** CONNECTED To Station " + otherCall + "\r\x00")},
-			{Kind: 'C', Port: otherPort(e.rng, uint8(sc.Port)), From: remoteCall, To: myCall, Data: []byte("*** CONNECTED To Station " + remoteCall + "\r\x00")},
+			{Kind: 'C', Port: uint8(sc.Port), From: e.cs.remoteCall, To: e.cs.myCall, Data: []byte("*** CONNECTED With Station " + e.cs.remoteCall + "\r\x00")},
+			{Kind: 'C', Port: uint8(sc.Port), From: e.cs.remoteCall, To: e.cs.myCall, Data: nil},
+			{Kind: 'C', Port: uint8(sc.Port), From: e.cs.remoteCall, To: e.cs.myCall, Data: []byte("*** CONN")},
+			{Kind: 'C', Port: uint8(sc.Port), From: e.cs.otherCall, To: "LA5NTA-9", Data: []byte("*** CONNECTED To Station " + e.cs.otherCall + "\r\x00")},
+			{Kind: 'C', Port: otherPort(e.rng, uint8(sc.Port)), From: e.cs.remoteCall, To: e.cs.myCall, Data: []byte("*** CONNECTED To Station " + e.cs.remoteCall + "\r\x00")},
 		}
 		var items []simagw.Item
 		for i := range odd {
@@ -635,7 +646,7 @@ func (e *env) connect() bool {
 			if a.c != nil {
 				ra = a.c.RemoteAddr().String()
 			}
-			e.vio("accept:spurious", "Accept returned (remote %q, err %v) although no station connected to %q on port %d", ra, a.err, myCall, sc.Port)
+			e.vio("accept:spurious", "Accept returned (remote %q, err %v) although no station connected to %q on port %d", ra, a.err, e.cs.myCall, sc.Port)
 			return false
 		case <-time.After(30 * time.Millisecond):
 		}
@@ -648,9 +659,9 @@ func (e *env) connect() bool {
 	for attempt := 0; ; attempt++ {
 		time.Sleep(time.Duration(1+attempt) * 2 * time.Millisecond)
 		if sc.EarlyData > 0 {
-			e.sim.InboundWithData(remoteCall, payloads(e.rng, sc.EarlyData, 1, 120))
+			e.sim.InboundWithData(e.cs.remoteCall, payloads(e.rng, sc.EarlyData, 1, 120))
 		} else {
-			e.sim.Inbound(remoteCall)
+			e.sim.Inbound(e.cs.remoteCall)
 		}
 		e.progressX.Add(1)
 		refused := false
@@ -664,16 +675,16 @@ func (e *env) connect() bool {
 					return false
 				}
 				e.conn = a.c
-				if got := a.c.RemoteAddr().String(); got != remoteCall {
-					e.vio("api:accept:remoteaddr", "accepted connection RemoteAddr() = %q, the TNC announced %q", got, remoteCall)
+				if got := a.c.RemoteAddr().String(); got != e.cs.remoteCall {
+					e.vio("api:accept:remoteaddr", "accepted connection RemoteAddr() = %q, the TNC announced %q", got, e.cs.remoteCall)
 				}
-				if got := a.c.LocalAddr().String(); got != myCall {
-					e.vio("api:accept:localaddr", "accepted connection LocalAddr() = %q, want %q", got, myCall)
+				if got := a.c.LocalAddr().String(); got != e.cs.myCall {
+					e.vio("api:accept:localaddr", "accepted connection LocalAddr() = %q, want %q", got, e.cs.myCall)
 				}
 				e.count("accept_attempts", int64(attempt+1))
 				return true
 			case <-time.After(3 * time.Millisecond):
-				rep := e.sim.ConnFlags(remoteCall)
+				rep := e.sim.ConnFlags(e.cs.remoteCall)
 				if rep.HostDisc {
 					refused = true
 				}
@@ -731,7 +742,7 @@ func (e *env) reader(done chan struct{}) {
 			}
 			if reads%256 == 255 {
 				// a stream that delivers far more than the TNC ever sent never ends: stop, the judge reports the surplus
-				if fl := e.sim.ConnFlags(remoteCall); e.gotN() > fl.TxBytes+(64<<10) {
+				if fl := e.sim.ConnFlags(e.cs.remoteCall); e.gotN() > fl.TxBytes+(64<<10) {
 					e.count("reader_stopped_far_beyond_ledger", 1)
 					e.fatalOnce.Do(func() { close(e.fatal) }) // end the scenario; the judge reports the surplus
 					return
@@ -812,7 +823,7 @@ func (e *env) flush(when string) {
 		}
 		return
 	}
-	fl := e.sim.ConnFlags(remoteCall)
+	fl := e.sim.ConnFlags(e.cs.remoteCall)
 	if fl.Closed {
 		return
 	}
@@ -842,17 +853,17 @@ func (e *env) driver(done chan struct{}, stop <-chan struct{}) {
 		var items []simagw.Item
 		for _, p := range payloads(rng, b.Frames, b.MinSz, b.MaxSz) {
 			if b.ForeignPct > 0 && rng.Intn(100) < b.ForeignPct {
-				f := harmlessFrame(rng, port, e.sc.Dual)
+				f := harmlessFrame(rng, port, e.sc.Dual, e.cs)
 				items = append(items, simagw.Item{Frame: &f, Note: "foreign"})
 				e.count("foreign_frames_interleaved", 1)
 			}
-			items = append(items, simagw.Item{Remote: remoteCall, Payload: p})
+			items = append(items, simagw.Item{Remote: e.cs.remoteCall, Payload: p})
 			if e.conn2 != nil && rng.Intn(100) < e.sc.DualPct {
-				items = append(items, simagw.Item{Remote: otherCall, Payload: vrt.Bytes(rng, 1+rng.Intn(150))})
+				items = append(items, simagw.Item{Remote: e.cs.otherCall, Payload: vrt.Bytes(rng, 1+rng.Intn(150))})
 			}
 		}
 		if bi == 0 && e.sc.Huge > 0 {
-			f := simagw.Frame{Kind: vrt.Pick(rng, []byte{'K', 'U', 'q'}), Port: port, From: remoteCall, To: myCall, Data: vrt.Bytes(rng, e.sc.Huge)}
+			f := simagw.Frame{Kind: vrt.Pick(rng, []byte{'K', 'U', 'q'}), Port: port, From: e.cs.remoteCall, To: e.cs.myCall, Data: vrt.Bytes(rng, e.sc.Huge)}
 			at := rng.Intn(len(items) + 1)
 			items = append(items[:at], append([]simagw.Item{{Frame: &f, Note: "huge"}}, items[at:]...)...)
 			e.count("huge_frames_sent", 1)
@@ -908,11 +919,11 @@ func (e *env) run() {
 		e.setPhase("dial-second")
 		var c2 net.Conn
 		var err error
-		if !e.call("DialContext", func() { c2, err = e.port.DialContext(context.Background(), otherCall) }) || e.nViol() > 0 {
+		if !e.call("DialContext", func() { c2, err = e.port.DialContext(context.Background(), e.cs.otherCall) }) || e.nViol() > 0 {
 			return
 		}
 		if err != nil {
-			e.vio("api:dial:error", "DialContext(%q) for the second connection failed although the TNC reported the connection: %v", otherCall, err)
+			e.vio("api:dial:error", "DialContext(%q) for the second connection failed although the TNC reported the connection: %v", e.cs.otherCall, err)
 			return
 		}
 		e.conn2 = c2
@@ -1006,7 +1017,7 @@ func (e *env) run() {
 			}
 		}
 		e.setPhase("remote-disconnect")
-		e.sim.Disconnect(remoteCall)
+		e.sim.Disconnect(e.cs.remoteCall)
 		if !e.await(rdDone) {
 			e.stuck("Read-until-EOF")
 			return
@@ -1075,7 +1086,7 @@ func (e *env) run() {
 		e.setPhase("link-drop")
 		if sc.TailLie {
 			one := uint32(simagw.MaxData)
-			f := simagw.Frame{Kind: 'D', PID: 0xF0, Port: uint8(sc.Port), From: remoteCall, To: myCall, Data: []byte("short"), DataLenOverride: &one}
+			f := simagw.Frame{Kind: 'D', PID: 0xF0, Port: uint8(sc.Port), From: e.cs.remoteCall, To: e.cs.myCall, Data: []byte("short"), DataLenOverride: &one}
 			e.sim.SendBatch([]simagw.Item{{Raw: f.Encode(), Note: "header announcing 1 MiB, 5 bytes follow, then the link ends"}})
 			e.count("tail_lie_sent", 1)
 		}
@@ -1151,7 +1162,7 @@ func (e *env) endSecond() {
 	dropped := e.dropLink
 	e.mu.Unlock()
 	if !dropped && e.sc.End != "tnc-close-stalled" {
-		e.sim.Disconnect(otherCall)
+		e.sim.Disconnect(e.cs.otherCall)
 	}
 	if !e.await(e.rd2) {
 		e.stuck("Read-until-EOF(second connection)")
@@ -1335,10 +1346,10 @@ func (e *env) judge(rep simagw.Report, aborted bool) {
 		e.count("pipe_reads_by_library", calls)
 		e.count("pipe_bytes_to_library", n)
 	}
-	if e.port != nil && sc.ShortX < 0 && !rep.EverReg[myCall] {
-		e.vio("exchange:register:no-X", "no 'X' frame for %q reached the TNC", myCall)
+	if e.port != nil && sc.ShortX < 0 && !rep.EverReg[e.cs.myCall] {
+		e.vio("exchange:register:no-X", "no 'X' frame for %q reached the TNC", e.cs.myCall)
 	}
-	c := rep.Conns[remoteCall]
+	c := rep.Conns[e.cs.remoteCall]
 	if e.conn == nil || c == nil {
 		return
 	}
@@ -1389,7 +1400,7 @@ func (e *env) judge(rep simagw.Report, aborted bool) {
 	}
 
 	// ---- second connection (Dual): its reader must see exactly its own frames
-	if c2 := rep.Conns[otherCall]; e.conn2 != nil && c2 != nil {
+	if c2 := rep.Conns[e.cs.otherCall]; e.conn2 != nil && c2 != nil {
 		e.mu.Lock()
 		got2 := append([]byte(nil), e.got2...)
 		e.mu.Unlock()
@@ -1401,11 +1412,11 @@ func (e *env) judge(rep simagw.Report, aborted bool) {
 		case bytes.HasPrefix(sent2, got2) && (aborted || sc.End == "tnc-close-stalled"):
 		default:
 			d := firstDiff(got2, sent2)
-			e.vio("rx-stream:second-connection", "the second connection (to %s) read %d bytes, the TNC sent it %d in %d frames; first difference at offset %d (%s)", otherCall, len(got2), len(sent2), c2.TxFrames, d, ctx)
+			e.vio("rx-stream:second-connection", "the second connection (to %s) read %d bytes, the TNC sent it %d in %d frames; first difference at offset %d (%s)", e.cs.otherCall, len(got2), len(sent2), c2.TxFrames, d, ctx)
 		}
 	}
 
-	if c2 := rep.Conns[otherCall]; e.conn2 != nil && c2 != nil && len(sc.Writes2) > 0 {
+	if c2 := rep.Conns[e.cs.otherCall]; e.conn2 != nil && c2 != nil && len(sc.Writes2) > 0 {
 		e.mu.Lock()
 		att2, suc2, werr2 := e.attempted2.Bytes(), e.succeeded2.Bytes(), e.writeErr2
 		e.mu.Unlock()
@@ -1464,10 +1475,10 @@ func (e *env) judge(rep simagw.Report, aborted bool) {
 		}
 	}
 	if !dropped && !aborted && e.port != nil {
-		if !rep.Unreg[myCall] && !rep.LinkCleanEOF {
+		if !rep.Unreg[e.cs.myCall] && !rep.LinkCleanEOF {
 			e.count("unregister_unobservable_link_reset", 1)
-		} else if !rep.Unreg[myCall] {
-			e.vio("exchange:unregister:no-x", "Port.Close returned but the TNC never received an 'x' frame for %q", myCall)
+		} else if !rep.Unreg[e.cs.myCall] {
+			e.vio("exchange:unregister:no-x", "Port.Close returned but the TNC never received an 'x' frame for %q", e.cs.myCall)
 		} else {
 			e.count("unregister_verified", 1)
 		}
